@@ -150,7 +150,7 @@ def native_call(src, cfg, calldata: bytes, value=0, evm_version="cancun", storag
 def calldata_from_model(model, nbytes_default=4 + 32 * 3):
     """concrete calldata bytes from a z3 model dict produced by smt.prove (needs eval_terms 'cd_<i>' words and 'cds')"""
     n = model.get("cds", nbytes_default)
-    n = min(n, 4096)
+    n = min(n, 1024)
     words = []
     i = 0
     out = bytearray()
